@@ -96,7 +96,10 @@ extern "C" long syscall(long n, ...) noexcept {
     if ((op & 0x7f) == 0) { const struct timespec* to = va_arg(ap, const struct timespec*); va_end(ap); return vf_futex_wait(addr, (uint32_t)val, to); }
     va_end(ap); return vf_futex_wake_all(addr);
   }
-  va_end(ap); fprintf(stderr, "REPLAY: unexpected syscall %ld\n", n); _exit(5);
+  // anything else (gettid from the logger, ...) goes to the kernel unchanged
+  long a1 = va_arg(ap, long), a2 = va_arg(ap, long), a3 = va_arg(ap, long), a4 = va_arg(ap, long), a5 = va_arg(ap, long), a6 = va_arg(ap, long); va_end(ap);
+  typedef long (*real_t)(long, ...); static real_t real = (real_t)dlsym(RTLD_NEXT, "syscall");
+  return real(n, a1, a2, a3, a4, a5, a6);
 }
 static void body(int tid, void (*pro)(), void (*fn)()) {
   t_tid = tid;
